@@ -86,11 +86,17 @@ type PathState struct {
 	routes    []route
 	overrides map[string]Value
 	lockMonitor string
+	interpose   Value
+	interposeBudget int
+	interposeAtomics bool
+	interposedAt []string
+	curThread   int
+	thread2Held []string
 }
 
 func newPathState(prefix []int32) *PathState {
 	return &PathState{prefix: prefix, reach: map[string]bool{}, touched: map[string]bool{}, env: map[string]Value{},
-		locks: map[string]*lockState{}, names: map[string]string{}, facts: map[string]bool{}, overrides: map[string]Value{}}
+		locks: map[string]*lockState{}, names: map[string]string{}, facts: map[string]bool{}, overrides: map[string]Value{}, curThread: 1}
 }
 
 type workItem struct{ prefix []int32 }
